@@ -119,6 +119,7 @@ Fixpoint emit_items (pc nb k nsdp : nat) (l : sent) : list task_call :=
   | LMI m :: rest =>
       let es := entries m in
       TAppendBarvars [length m]
+      :: TGetNumCon nb          (* self._lmi_entries_index_in_mosek.append(self.task.getnumcon()) *)
       :: emit_entries pc (length m) (S nsdp - 1) nb k es
       ++ (if Z.leb (Z.of_nat (nb + length es)) int32_lim
           then emit_items pc (nb + length es) (k + 2 * length es) (S nsdp) rest else [])
@@ -154,6 +155,62 @@ Fixpoint recover_lmi_reads (cp : nat) (l : sent) : list task_call :=
   | LMI _ :: rest => TGetBarsj cp :: recover_lmi_reads (S cp) rest
   end.
 Definition recover_reads (l : sent) : list task_call := TGetY :: TGetBarsj 0 :: recover_lmi_reads 1 l.
+
+(** The wrapper's own bookkeeping while sending ([nb] = what getnumcon returned at that moment):
+    [_constraint_index_in_mosek] (row of each tracked scalar constraint) and
+    [_lmi_entries_index_in_mosek] (row of the first entry of each LMI), both in send order. *)
+Fixpoint sc_index (nb : nat) (l : sent) : list nat :=
+  match l with
+  | [] => []
+  | SC _ _ :: rest => nb :: sc_index (S nb) rest
+  | LMI m :: rest => sc_index (nb + length (entries m)) rest
+  end.
+Fixpoint lmi_first_index (nb : nat) (l : sent) : list nat :=
+  match l with
+  | [] => []
+  | SC _ _ :: rest => lmi_first_index (S nb) rest
+  | LMI m :: rest => nb :: lmi_first_index (nb + length (entries m)) rest
+  end.
+
+(** _get_Gram_from_mosek (lines 372-381): the lower triangle, columns one after the other *)
+Fixpoint col_offset (size c : nat) : nat :=
+  match c with O => 0 | S c' => col_offset size c' + (size - c') end.
+Definition gram_entry (tril : list Q) (size r c : nat) : Q :=
+  nth (col_offset size (Nat.min r c) + (Nat.max r c - Nat.min r c)) tril 0%Q.
+Definition get_gram (tril : list Q) (size : nat) : list (list Q) :=
+  map (fun r => map (fun c => gram_entry tril size r c) (seq 0 size)) (seq 0 size).
+Definition mat_opp (m : list (list Q)) : list (list Q) := map (map Qopp) m.
+
+(** [np.array(v).reshape((n, n))] of a list of n*n values *)
+Fixpoint chunks (n rows : nat) (v : list Q) : list (list Q) :=
+  match rows with O => [] | S r => firstn n v :: chunks n r (skipn n v) end.
+
+(** _recover_dual_values (lines 228-262 after bd99691).  [y] = gety, [bars j] = getbarsj(itr, j).
+    Per tracked item, in send order: scalar constraint -> y[_constraint_index_in_mosek[counter_scalar]];
+    LMI -> (-Gram(getbarsj(counter_psd)),  -y[first : first + n*n].reshape(n, n))  with
+    first = _lmi_entries_index_in_mosek[counter_psd - 1]. *)
+Inductive recovered : Type :=
+| RScalar (lam : Q)
+| RLmi (dual : list (list Q)) (entries_dual : list (list Q)).
+
+Fixpoint recover_items (y : list Q) (bars : nat -> list Q) (scidx firsts : list nat)
+         (counter_scalar counter_psd : nat) (l : sent) : list recovered :=
+  match l with
+  | [] => []
+  | SC _ _ :: rest =>
+      RScalar (nth (nth counter_scalar scidx 0) y 0%Q)
+      :: recover_items y bars scidx firsts (S counter_scalar) counter_psd rest
+  | LMI m :: rest =>
+      let n := length m in
+      let first := nth (counter_psd - 1) firsts 0 in
+      RLmi (mat_opp (get_gram (bars counter_psd) n))
+           (mat_opp (chunks n n (firstn (n * n) (skipn first y))))
+      :: recover_items y bars scidx firsts counter_scalar (S counter_psd) rest
+  end.
+
+Definition recover (l : sent) (pc : nat) (y : list Q) (bars : nat -> list Q) : list (list Q) * list recovered :=
+  (mat_opp (get_gram (bars 0) pc),                                     (* residual = dual_values[0] *)
+   recover_items y bars (sc_index 0 l) (lmi_first_index 0 l) 0 1 l).
 
 (** prepare_heuristic (322-324): [self.objective >= wc_value - tol] is Expression.__ge__ with a scalar;
     [v] = wc_value - tol_dimension_reduction; sent with track=False through the same code *)
@@ -471,9 +528,23 @@ Definition dump_sdp (d : sdp) : D :=
 
 (** one correspondence case: the whole session's call log; the second component tells whether the
     model says the API accepts every call ("ok") or raises, and the guard's verdict *)
+Definition dump_mat (m : list (list Q)) : D := DL (map dump_qs m).
+Definition dump_recovered (r : recovered) : D :=
+  match r with
+  | RScalar lam => DQ lam
+  | RLmi d e => DL [dump_mat d; dump_mat e]
+  end.
+
+(** [sol] = what the solver answered to the first solve: (gety, [getbarsj 0; getbarsj 1; ...]) *)
 Definition dump_session (l : sent) (pc ec obj : nat)
-           (heur : option (Q * list (list triple))) : D :=
+           (heur : option (Q * list (list triple))) (sol : option (list Q * list (list Q))) : D :=
   let cs := emit_session l pc ec obj heur in
   DL [DL (map dump_call (run_prefix cs t0));
       DB (match run cs t0 with Some _ => true | None => false end);
-      DB (guard l pc ec obj)].
+      DB (guard l pc ec obj);
+      match sol with
+      | None => DL []
+      | Some (y, bars) =>
+          let r := recover l pc y (fun j => nth j bars []) in
+          DL [dump_mat (fst r); DL (map dump_recovered (snd r))]
+      end].
